@@ -23,12 +23,12 @@ TraceBlob ==
     /\ Ev.err = ""
     /\ (Ev.opt.mode # "lossless") => Ev.tartail = 0      \* the end-of-archive blocks of the input are kept in lossless mode only
     /\ input' = Ev.input /\ opt' = Ev.opt /\ phase' = "done"
-    /\ LET o == Expected(Ev.opt.mode, Ev.input)
+    /\ LET o == Written(Ev.opt.mode, Ev.input)
            M == Ev.members
        IN  /\ Ev.order = o
            /\ Len(Ev.hdr) = Len(o)
            /\ LET enough == {<<Idx(o, Ev.toc[j].name), Ev.toc[j].o>> : j \in {j \in 1..Len(Ev.toc) : Ev.toc[j].data /\ Ev.toc[j].inner = 0}}
-                  r == WriterRun(o, Ev.hdr, Ev.opt, enough, [g \in 1..Len(M) |-> M[g].e - M[g].s], Ev.tartail)
+                  r == WriterRun(Sorted(Ev.opt.mode, Ev.input), Ev.hdr, Ev.opt, enough, [g \in 1..Len(M) |-> M[g].e - M[g].s], Ev.tartail)
               IN  /\ Len(r.members) = Len(M)
                   /\ \A g \in 1..Len(M) :
                        /\ r.members[g].s = M[g].s /\ r.members[g].e = M[g].e
@@ -38,6 +38,7 @@ TraceBlob ==
                   /\ \A j \in 1..Len(r.toc) :
                        LET a == r.toc[j]  b == Ev.toc[j] IN
                        /\ o[a.i].name = b.name /\ a.type = b.type /\ a.size = b.size /\ a.o = b.o /\ a.cs = b.cs
+                       /\ (a.type # "chunk") => (o[a.i].meta = b.meta /\ o[a.i].link = b.link)
                        /\ a.off = b.off /\ a.inner = b.inner
     /\ lay' = [order |-> Ev.order, members |-> Ev.members, toc |-> Ev.toc, expected |-> Expected(Ev.opt.mode, Ev.input),
                diffid |-> Ev.diffid, shaAll |-> Ev.shaAll, tocdigest |-> Ev.tocdigest, shaToc |-> Ev.shaToc,
